@@ -66,12 +66,28 @@ func (b *builder) level(chain []string, i int) L {
 	panic(chain[i])
 }
 
+// prelude: statements main runs BEFORE the chain, which leave error-handling state behind in the thread:
+// 1 = a generator consumed to exhaustion by for-in (the stop-iteration signal), 2 = an error thrown in a
+// callee and caught here. Neither may show in the trace of the later, unrelated uncaught error.
+func (b *builder) prelude(kind int) L {
+	switch kind {
+	case 1:
+		b.defs["gen0"] = Def(nil, "Int", true, B(Yield(Int(1)), Yield(Int(2)), Return(Int(0))))
+		return B(ForGen("", "w0", "gen0", L{}, B(Let("q0", "Int", Var("w0"))), "f0"))
+	case 2:
+		b.defs["thr0"] = Def(nil, "Int", false, B(b.filler("y"), Throw(Sym(2)), Return(Int(0))))
+		return B(Let("t0", "Int", Int(0)), Try(B(Call("t0", "thr0")), L{CatchSym(2, B(Set("t0", Int(5))))}, false, nil))
+	}
+	return nil
+}
+
 func chainProg(id int, chain []string, fill func() int) M {
 	b := &builder{defs: map[string]M{}, fill: fill}
-	body := b.level(chain, 0)
+	pre := b.prelude(id % 3)
+	body := append(pre, b.level(chain, 0)...)
 	b.defs["main_"] = Def(nil, "Int", false, body)
 	p := Prog(id, b.defs)
-	p["desc"] = "call chain " + strings.Join(chain, ">") + " with a throw at the innermost level"
+	p["desc"] = "call chain " + strings.Join(chain, ">") + " with a throw at the innermost level" + []string{"", " after a generator was exhausted by for-in", " after an error was thrown in a callee and caught"}[id%3]
 	tags := ""
 	for _, k := range chain {
 		if k == "g" {
